@@ -255,6 +255,7 @@ type c19Template struct {
 	TypeB    bool        `json:"use_b_type_letter"`
 	User     string      `json:"user"`
 	Earlier  []string    `json:"earlier_downloads,omitempty"` // users who downloaded from the same gateway before
+	Broken   string      `json:"broken_template,omitempty"`   // a malformed line added to the template (or "missing-file"): the download must fail instead of silently using defaults
 	Host     string      `json:"host"`
 	NoUser   bool        `json:"no_username"`
 	Split    bool        `json:"split_user_domain"`
@@ -269,6 +270,9 @@ func TestC19_TEMPLATE(t *testing.T) {
 		c := c19Template{Settings: genSettings(t), TypeB: rapid.Bool().Draw(t, "typeB"), NoUser: rapid.Bool().Draw(t, "nouser"), Split: rapid.Bool().Draw(t, "split")}
 		c.User = rapid.SampledFrom([]string{"alice", "bob@example.com", "Ünï cødé", "a:b", "x y"}).Draw(t, "user")
 		c.Earlier = rapid.SliceOfN(rapid.SampledFrom([]string{"carol@corp.example", "dave", "erin@x", "alice"}), 0, 3).Draw(t, "earlier")
+		if rapid.IntRange(0, 5).Draw(t, "broken") == 0 {
+			c.Broken = rapid.SampledFrom([]string{"no colons here", "onlyname:", "desktopwidth:i:wide", "desktopwidth:i:", "audiomode:x:1", "name:s", "missing-file"}).Draw(t, "brokenLine")
+		}
 		c.Host = rapid.SampledFrom([]string{"10.0.0.1:3389", "host.example:3390", "[::1]:3389"}).Draw(t, "host")
 		c.Blank = rapid.SliceOfN(rapid.IntRange(0, 60), 0, 4).Draw(t, "blank")
 		return c
@@ -309,8 +313,18 @@ func TestC19_TEMPLATE(t *testing.T) {
 				sb.WriteString("\r\n# a comment: with colons\r\n   \r\n")
 			}
 		}
+		if c.Broken != "" && c.Broken != "missing-file" {
+			// somewhere in the middle of the well-formed lines
+			lines := strings.SplitAfter(sb.String(), "\r\n")
+			at := len(lines) / 2
+			sb.Reset()
+			sb.WriteString(strings.Join(lines[:at], "") + c.Broken + "\r\n" + strings.Join(lines[at:], ""))
+		}
 		fn := filepath.Join(dir, "template.rdp")
 		os.WriteFile(fn, []byte(sb.String()), 0o600)
+		if c.Broken == "missing-file" {
+			os.Remove(fn)
+		}
 		gwURL, _ := url.Parse("https://gw.example.test:8443/")
 		newHandler := func() *web.Handler {
 			return (&web.Config{
@@ -335,6 +349,13 @@ func TestC19_TEMPLATE(t *testing.T) {
 			download(u)
 		}
 		rr := download(c.User)
+		if c.Broken != "" {
+			// the administrator's template cannot be used: answering 200 would hand out a file without its settings
+			if rr.Code == http.StatusOK {
+				return viol("c19/broken-template-served", "template with the malformed line %q (or missing file): the download answered 200 instead of failing:\n%s", c.Broken, shorten(rr.Body.String()))
+			}
+			return nil
+		}
 		if rr.Code != http.StatusOK {
 			return viol("c19/template-rejected", "download with a well-formed template answered %d: %s\n template:\n%s", rr.Code, rr.Body.String(), shorten(sb.String()))
 		}
